@@ -67,12 +67,12 @@ fn sanitize(s: &str, max: usize) -> String {
 const PRINT_MACROS: [&str; 4] = ["println", "eprintln", "print", "eprint"];
 
 // method -> renamed shim method (dispatch by shim trait on the receiver type)
-const SHIM_METHODS: [&str; 35] = [
+const SHIM_METHODS: [&str; 36] = [
     "len", "read_until", "read_to_end", "read_exact",
     "to_string", "join", "trim", "parse", "replace", "to_lowercase", "to_uppercase", "starts_with",
     "ends_with", "contains", "split_once", "to_vec", "concat", "borrow", "eq", "as_ref", "as_bytes",
     "as_str", "extend", "copied", "strip_prefix", "strip_suffix", "trim_matches", "lines", "find",
-    "rfind", "is_char_boundary", "to_owned", "into_bytes", "chars_unsupported", "replacen",
+    "rfind", "is_char_boundary", "to_owned", "into_bytes", "chars_unsupported", "replacen", "remove",
 ];
 
 // path calls renamed to free shim functions
@@ -812,8 +812,25 @@ impl Rw {
         let lm = self.loop_marker(k);
         fl.body.stmts.insert(0, lm);
         let lit = proc_macro2::Literal::usize_unsuffixed(k);
+        // R-FORTMP: `for c in <call>.chars()` iterates over a temporary; Verus' expansion of the loop cannot borrow it, so the
+        // temporary gets a name (its lifetime is the loop either way)
+        let mut hoisted: Option<Stmt> = None;
+        if let Expr::MethodCall(mc) = &mut e {
+            if mc.method == "chars" && mc.args.is_empty() && matches!(&*mc.receiver, Expr::MethodCall(_) | Expr::Call(_)) {
+                let t = format_ident!("__rws_t{}", k);
+                let recv = (*mc.receiver).clone();
+                hoisted = Some(parse_quote! { let #t = #recv; });
+                mc.receiver = Box::new(parse_quote! { #t });
+                self.log("R-FORTMP", sp, format!("for-loop #{}: temporary receiver of .chars() named", k));
+            }
+        }
         fl.expr = Box::new(parse_quote! { __rws_iter!(#lit, #e) });
         self.log("R-FOR", sp, format!("for-loop #{}: iterator expression named for the contract", k));
+        if let Some(h) = hoisted {
+            let f = Stmt::Expr(Expr::ForLoop(fl.clone()), None);
+            let blk: Stmt = parse_quote! { { #h #f } };
+            return Some(vec![blk]);
+        }
         Some(vec![Stmt::Expr(Expr::ForLoop(fl.clone()), None)])
     }
 }
